@@ -273,3 +273,106 @@ contract(
     note="nested function of _scalar_mat_op (used by det); `op` is an arbitrary function of the matrix entries; dimensions 1..3 enumerated "
          "(bounded in the dimension, symbolic in the entries)",
 )
+
+
+# ---------------------------------------------------------------------------------------------------
+# Corr.prune: the projected matrix G'_ij(t) = (v_i, G(t) v_j) for ALL i, j (no symmetry of G(t) may be assumed)
+
+def _prune_slice(mod, fnode):
+    out = []
+    started = False
+    for st in fnode.body:
+        if isinstance(st, ast.Assign) and isinstance(st.targets[0], ast.Name) and st.targets[0].id == "tmpmat":
+            started = True
+        if started:
+            out.append(st)
+            if isinstance(st, ast.For):
+                return out
+    from pyvc.sym import CheckerError
+    raise CheckerError("contract no longer binds: projection loop of Corr.prune not found")
+
+
+def _corr_mats(T):
+    def make(name, ctx, shape):
+        content = CList([CList([fresh_mat("%s_G%d" % (name, t), 3)], "list") for t in range(T)], "list")
+        # content[t] is the N x N array itself (len > 1): __getitem__ returns it; a one-element wrapper list stands for that here
+        return SObj("Corr", {"content": content, "T": T, "N": 3})
+    return make
+
+
+_GETITEM_STUB = contract(
+    CORR + "::Corr.__getitem__", props=[], assumed=True, register=False, name=CORR + "::Corr.__getitem__[matrix timeslice]",
+    params=dict(self=Custom(lambda n, c, s: None), idx=Custom(lambda n, c, s: None)),
+    result=lambda a, ctx: a.self.attrs["content"].items[a.idx].items[0],
+    note="for a matrix-valued correlator self[t] is the N x N array of timeslice t (defined timeslices only)",
+)
+
+
+def _prune_post(a, r):
+    if not isinstance(a.self, SObj):
+        return _prune_post_native(a, r)
+    vs = a.evecs.items
+    out = {"one matrix per timeslice": len(r.rmat.items) == a.self.attrs["T"]}
+    for t in range(a.self.attrs["T"]):
+        G = a.self.attrs["content"].items[t].items[0].t
+        for i in range(2):
+            for j in range(2):
+                cell = r.rmat.items[t].items[i].items[j]
+                out["G'[%d][%d](t=%d) = (v_%d, G(t) v_%d)" % (i, j, t, i, j)] = isinstance(cell, AMat) and wrap(cell.t == MM(MM(TR(vs[i].t), G), vs[j].t))
+    return out
+
+
+def _prune_native(args):
+    c = args["self"]
+    return c.prune(2, tproj=args["tproj"], t0proj=args["t0proj"])
+
+
+def _prune_gen(rng, case):
+    import numpy as np
+    from pyvc.native import repo_module
+    pe = repo_module("pyerrors.obs")
+    co = repo_module("pyerrors.correlators")
+    r = np.random.default_rng(rng.randint(0, 10 ** 6))
+    noise = np.array([0.01, -0.01, 0.02, -0.02, 0.005, -0.005])
+    E = np.array([0.3, 0.7, 1.2])
+    U = r.normal(size=(3, 3)) + 2 * np.eye(3)
+    A = r.normal(size=(3, 3)) * 0.05
+    A = A - A.T            # antisymmetric part: the correlator matrix is NOT symmetric
+    content = []
+    for t in range(6):
+        G = U @ np.diag(np.exp(-E * t)) @ U.T + A * np.exp(-0.5 * t)
+        m = np.empty((3, 3), dtype=object)
+        for idx in np.ndindex(3, 3):
+            m[idx] = pe.Obs([G[idx] + noise * 1e-3], ["e"])
+        content.append(m)
+    return dict(self=co.Corr(content), evecs=None, Ntrunc=2, basematrix=None, tproj=3, t0proj=2)
+
+
+def _prune_post_native(a, r):
+    import numpy as np
+    c = a.self
+    evecs = c.GEVP(a.t0proj, a.tproj, sort=None)[:2]
+    ok = True
+    for t in range(c.T):
+        G = np.vectorize(lambda o: o.value)(c.content[t])
+        for i in range(2):
+            for j in range(2):
+                ok = ok and abs(r.content[t][i][j].value - float(evecs[i] @ G @ evecs[j])) <= 1e-9 * (1 + abs(float(evecs[i] @ G @ evecs[j])))
+    return {"G'[i][j](t) = (v_i, G(t) v_j)": bool(ok)}
+
+
+contract(
+    CORR + "::Corr.prune", name=CORR + "::Corr.prune[projection loop]", props=["C16"],
+    slice=_prune_slice, overrides={CORR + "::Corr.__getitem__": _GETITEM_STUB},
+    params=dict(self=OneOf(T1=Custom(_corr_mats(1)), T2=Custom(_corr_mats(2))), Ntrunc=Const(2),
+                basematrix=Custom(lambda n, c, s: None),
+                evecs=Custom(lambda n, c, s: CList([fresh_mat("v0", 3), fresh_mat("v1", 3)], "list")),
+                tproj=Const(3), t0proj=Const(2)),
+    pre_execute=lambda interp, mod, fnode, args: args.__setitem__("basematrix", args["self"]),
+    ensures=_prune_post,
+    axioms=axioms,
+    native_call=_prune_native, gen=_prune_gen, crosscheck=False, refute=False,
+    slice_note="from `tmpmat = np.empty(...)` to the end of the loop over timeslices; live-in variables self (= basematrix), evecs, Ntrunc = 2",
+    note="eigenvectors and timeslice matrices are elements of the abstract matrix ring; T in {1, 2}, Ntrunc = 2 enumerated (the loops are "
+         "unrolled); natively the whole method is run on a 3 x 3 correlator matrix that is NOT symmetric",
+)
